@@ -319,7 +319,9 @@ def run(R):
         'are 400..405 (client errors other than 408/429) with an empty body; for the sync helper `time.sleep` is a '
         'recorder in the utils namespace; the explicit `raise ... from` dimension keeps the code\'s documented rule '
         '(follow __cause__) with the classifiers as oracle',
-        'family X part 2: a builtin OSError subclass whose class object is not exactly named by any classifier branch, '
+        'family X part 2: a builtin OSError subclass whose class object is not exactly named by any classifier branch of '
+        'the tree under test and is not in the pinned vocabulary (the classes harness/C21_retry.py has hand-written '
+        'constructors for, i.e. the classifiers\' vocabulary when the check was written), '
         'with an errno the classifiers compare nowhere, is "any other error" by the property text and must be raised at '
         'once; the errno reference set (RETRYABLE_ERRNOS, the integer constants in the classifiers\' source, '
         'socket.EAI_AGAIN/EAI_NONAME) is read from the tree under test - a pinned reference, the property text names '
